@@ -85,7 +85,8 @@ class Policy:
         if key in PURE_TRAIT_METHODS or key in self.pure_extra:
             return True
         if callee.get('trait') in PURE_TRAITS:
-            return True
+            # Frame::from_samples advances the iterator it is given
+            return callee['name'] != 'from_samples'
         p = (callee.get('res') or callee)['path']
         if p in self.pure_extra:
             return True
@@ -132,6 +133,7 @@ class Engine:
         self.max_paths = max_paths
         self.npaths = 0
         self._loops = {}
+        self.discr_variants = {}
 
     # ------------------------------------------------------------ loops
     def loop_info(self, body):
@@ -433,12 +435,37 @@ class Engine:
             v = self.read(st, self.resolve(st, frame, rv[1]))
             if v[0] == 'agg' and v[1][0] == 'adt':
                 return ('int', v[1][2], 'isize')
-            return ('discr', v)
+            d = ('discr', v)
+            n = self.variant_count(body, rv[1])
+            if n:
+                self.discr_variants[d] = n
+            return d
         if k == 'repeat':
             return ('repeat', self.operand(st, frame, rv[1]), rv[2])
         if k == 'len':
             return ('len', self.read(st, self.resolve(st, frame, rv[1])))
         return ('rvalue', str(rv)[:80])
+
+    def variant_count(self, body, place):
+        local, proj = place
+        ty = body['locals'][local]
+        for p in proj:
+            if isinstance(p, list) and p[0] == 'f':
+                ty = p[2]
+            elif p == '*':
+                t = self.facts.ty(ty)
+                ty = t.get('inner') if t.get('k') in ('ref', 'ptr') else None
+            else:
+                ty = None
+            if ty is None:
+                return None
+        t = self.facts.ty(ty)
+        if t.get('k') != 'adt':
+            return None
+        if t['path'] in ('core::option::Option', 'core::result::Result'):
+            return 2
+        a = self.facts.adts.get(t['path'])
+        return len(a['variants']) if a and t.get('is_enum') else None
 
     # ------------------------------------------------------------ execution
     def summarize(self, body, args=None):
@@ -531,15 +558,21 @@ class Engine:
                     continue
                 dty = self.facts.ty(t['dty'])
                 isb = dty.get('k') == 'bool'
-                taken = []
-                for v, tb in t['ts']:
-                    taken.append((int(v), tb))
-                others = [int(v) for v, _ in t['ts']]
-                branches = [(('is', v), tb) for v, tb in taken]
-                # `otherwise` is infeasible for a bool with both values listed; for `unreachable` targets skip
-                if not (isb and len(others) == 2):
+                excluded = st.facts.get(('ne', d), frozenset())
+                listed = [int(v) for v, _ in t['ts']]
+                branches = [(('is', v), tb) for v, tb in ((int(v), tb) for v, tb in t['ts']) if v not in excluded]
+                # `otherwise`: infeasible for a bool with both values listed, or when it only leads to `unreachable`
+                if not (isb and len(listed) == 2):
                     if blocks[t['o']]['t']['k'] != 'unreachable' or blocks[t['o']]['s']:
-                        branches.append((('not', tuple(others)), t['o']))
+                        nvar = self.discr_variants.get(d)
+                        if nvar is not None:
+                            rest = [v for v in range(nvar) if v not in listed and v not in excluded]
+                            if len(rest) == 1:
+                                branches.append((('is', rest[0]), t['o']))
+                            elif rest:
+                                branches.append((('not', tuple(listed)), t['o']))
+                        else:
+                            branches.append((('not', tuple(listed)), t['o']))
                 for cond, tb in branches:
                     self.npaths += 1
                     if self.npaths > self.max_paths:
@@ -547,14 +580,15 @@ class Engine:
                     st2 = st.clone()
                     if cond[0] == 'is':
                         cv = t_bool(cond[1]) if isb else ('int', cond[1], t['dty'])
-                        st2.facts[d] = cv
+                        self.learn(st2, d, cv)
                         st2.conds.append((d, cv, t.get('l')))
                     else:
                         if isb and len(cond[1]) == 1:
                             cv = t_bool(not cond[1][0])
-                            st2.facts[d] = cv
+                            self.learn(st2, d, cv)
                             st2.conds.append((d, cv, t.get('l')))
                         else:
+                            st2.facts[('ne', d)] = excluded | frozenset(cond[1])
                             st2.conds.append((d, ('notin', cond[1]), t.get('l')))
                     yield from self.exec(body, frame, tb, st2, depth, stack)
                 return
@@ -570,7 +604,7 @@ class Engine:
                     return
                 st.events.append({'kind': 'assert', 'cond': c, 'expected': t['e'], 'msg': t['m'], 'line': t.get('l'), 'fn': body['path'],
                                   'ops': [self.operand(st, frame, o) for o in t.get('mo', [])]})
-                st.facts[c] = t_bool(t['e'])
+                self.learn(st, c, t_bool(t['e']))
                 bb = t['t']
             elif k == 'drop':
                 bb = t['t']
@@ -583,6 +617,18 @@ class Engine:
             else:
                 yield st, ('panic', 'terminator ' + k), None
                 return
+
+    def learn(self, st, d, cv):
+        """record the outcome of a test; (x == K) being true/false also tells something about x"""
+        st.facts[d] = cv
+        if cv[0] == 'bool' and d[0] == 'op' and d[1] in ('Eq', 'Ne') and d[3][0] == 'int':
+            x, K = d[2], d[3]
+            if (d[1] == 'Eq') == cv[1]:
+                st.facts[x] = K
+            else:
+                st.facts[('ne', x)] = st.facts.get(('ne', x), frozenset()) | {K[1]}
+        if cv[0] == 'bool' and d[0] == 'un' and d[1] == 'Not':
+            self.learn(st, d[2], t_bool(not cv[1]))
 
     def do_call(self, body, frame, t, st, depth, stack):
         callee = t['callee']
